@@ -384,12 +384,12 @@ def vk_conformance(tier="quick", deadline=1500):
     return total
 
 
-def vk_run(res, scn, src, rd, bounds, total, deadline, family, opts=(), workers=16):
+def vk_run(res, scn, src, rd, bounds, total, deadline, family, opts=(), workers=16, qcap=0):
     """Run one VK exploration; merges its STAT/SAMPLE/FAIL lines; copies a replay file to /verif/replays."""
     outdir = os.path.join(rd, "vkout")
     os.makedirs(outdir, exist_ok=True)
     vk_import_guard(src)
-    cmd = vk_cmd(scn, src, outdir, bounds, total, deadline, family, opts, workers)
+    cmd = vk_cmd(scn, src, outdir, bounds, total, deadline, family, opts, workers, "--qcap %d" % qcap if qcap else "")
     p = sh(cmd, check=False, timeout=deadline + 300)
     out = p.stdout or ""
     if p.returncode not in (0, 1):
